@@ -27,6 +27,95 @@ def nonMappingClsGen (w : World) (cfg : Cfg) (c : Nat) (o : Obj) : Option Obj :=
 def nonMappingClsInterp (w : World) (c : Nat) : Option Obj :=
   if (initFields (w.fields c)).isEmpty then (defaultsOf (w.fields c)).map (.inst c) else Option.none
 
+/-! ### `str` / `bytes` payloads at iterating positions
+
+A collection / heterogeneous-tuple / NamedTuple / tuple-strategy class position structures ANY iterable: a `str`
+iterates into 1-character strings, `bytes` into ints.  The items are not sub-terms of the payload, so they are
+structured by this family: the same templates, iteration by `leafItems`, recursion bounded by the type and -- through
+classes, whose field types come from the class table -- by a fuel. -/
+
+mutual
+def stLF (w : World) (cfg : Cfg) : Nat → Ty → Obj → Option Obj
+  | _, .any, x => some x
+  | _, .int, x => x.toInt?.map .int
+  | _, .float, x => x.toFlt?.map .flt
+  | _, .str, x => some (.str (pyStr x))
+  | _, .bytes, x => x.toBytes?.map .bytes
+  | _, .bool, x => some (.bool x.truthy)
+  | _, .enum e, x => enumOf w e x
+  | _, .lit vs, x => if Obj.memPy x vs then some x else Option.none
+  | n, .coll k t, o =>
+      match leafItems o with
+      | Option.none => Option.none
+      | some xs => match stLFL w cfg n t xs with
+        | Option.none => Option.none
+        | some ys => finishColl w k.structTo ys
+  | n, .tupleHet ts, o =>
+      match leafItems o with
+      | Option.none => Option.none
+      | some xs => (stLFT w cfg n ts xs).map (.coll .tuple)
+  | _, .opt _, .none => some .none
+  | n, .opt t, x => stLF w cfg n t x
+  | n, .wrap _ t, x => stLF w cfg n t x
+  | n, .cls c, o =>
+      if cfg.tupleStrat then
+        match n with
+        | 0 => Option.none                                   -- fuel exhausted: `RecursionError`
+        | n' + 1 =>
+          match leafItems o with
+          | Option.none => Option.none
+          | some xs => (stLFFieldsT w cfg n' (w.fields c) xs).map (.inst c)
+      else if cfg.gen then nonMappingClsGen w cfg c o
+      else nonMappingClsInterp w c
+  | n, .union cs hn, o =>
+      match unionPick w cs hn o with
+      | .ok m => if h : m ∈ cs then stLF w cfg n (.cls m) o else Option.none
+      | .none => some .none
+      | _ => Option.none
+  | n, .nt c, o =>
+      match n with
+      | 0 => Option.none
+      | n' + 1 =>
+        match leafItems o with
+        | Option.none => Option.none
+        | some xs => if w.isNT c then (stLFT w cfg n' (w.ntTys c) xs).map (ntMk w c) else Option.none
+  | _, _, _ => Option.none
+termination_by n t _ => (n, sizeOf t, 0)
+decreasing_by
+  all_goals first
+    | decreasing_tactic
+    | (apply Prod.Lex.right; apply Prod.Lex.left; have := List.sizeOf_lt_of_mem h; simp at this ⊢; omega)
+def stLFL (w : World) (cfg : Cfg) (n : Nat) (t : Ty) : List Obj → Option (List Obj)
+  | [] => some []
+  | x :: xs => match stLF w cfg n t x with
+    | Option.none => Option.none
+    | some y => (stLFL w cfg n t xs).map (y :: ·)
+termination_by xs => (n, sizeOf t, xs.length + 1)
+def stLFT (w : World) (cfg : Cfg) (n : Nat) : List Ty → List Obj → Option (List Obj)
+  | [], [] => some []
+  | t :: ts, x :: xs => match stLF w cfg n t x with
+    | Option.none => Option.none
+    | some y => (stLFT w cfg n ts xs).map (y :: ·)
+  | _, _ => Option.none
+termination_by ts _ => (n, sizeOf ts, 0)
+def stLFFieldsT (w : World) (cfg : Cfg) (n : Nat) : List Field → List Obj → Option (List (String × Obj))
+  | [], _ => some []
+  | f :: fds, [] =>
+      match f.dflt.value? with
+      | Option.none => Option.none
+      | some d => (stLFFieldsT w cfg n fds []).map ((f.name, d) :: ·)
+  | f :: fds, x :: xs =>
+      if !f.init then
+        match f.dflt.value? with
+        | Option.none => Option.none
+        | some d => (stLFFieldsT w cfg n fds xs).map ((f.name, d) :: ·)
+      else
+        match (match f.ty with | Option.none => some x | some t => stLF w cfg n t x) with
+        | Option.none => Option.none
+        | some y => (stLFFieldsT w cfg n fds xs).map ((f.name, y) :: ·)
+termination_by fds _ => (n + 1, 0, fds.length)
+end
+
 mutual
 def stF (w : World) (cfg : Cfg) : Ty → Obj → Option Obj
   | .any, x => some x
@@ -39,13 +128,13 @@ def stF (w : World) (cfg : Cfg) : Ty → Obj → Option Obj
   | .lit vs, x => if Obj.memPy x vs then some x else Option.none
   | .coll k t, o =>
       match h : iterItems o with
-      | Option.none => Option.none
+      | Option.none => stLF w cfg (leafFuel w) (.coll k t) o       -- a `str` / `bytes` payload (else not iterable)
       | some xs => match stFL w cfg t xs with
         | Option.none => Option.none
         | some ys => finishColl w k.structTo ys
   | .tupleHet ts, o =>
       match h : iterItems o with
-      | Option.none => Option.none
+      | Option.none => stLF w cfg (leafFuel w) (.tupleHet ts) o
       | some xs => (stFT w cfg ts xs).map (.coll .tuple)
   | .map _ kt vt, .dict kvs =>
       match stFKV w cfg kt vt kvs with
@@ -64,7 +153,7 @@ def stF (w : World) (cfg : Cfg) : Ty → Obj → Option Obj
   | .cls c, o =>
       if cfg.tupleStrat then
         match h : iterItems o with
-        | Option.none => Option.none
+        | Option.none => stLF w cfg (leafFuel w) (.cls c) o
         | some xs => (stFFieldsT w cfg (w.fields c) xs).map (.inst c)
       else if cfg.gen then nonMappingClsGen w cfg c o
       else nonMappingClsInterp w c
@@ -84,7 +173,7 @@ def stF (w : World) (cfg : Cfg) : Ty → Obj → Option Obj
   | .nt c, o =>
       -- `namedtuple_structure_factory` (both converter classes): `cl(*structure(o, tuple[T1, ..., Tn]))`
       match h : iterItems o with
-      | Option.none => Option.none
+      | Option.none => stLF w cfg (leafFuel w) (.nt c) o
       | some xs => if w.isNT c then (stFT w cfg (w.ntTys c) xs).map (ntMk w c) else Option.none
   | _, _ => Option.none
 termination_by t x => (sizeOf x, sizeOf t)
